@@ -3,7 +3,7 @@ import os, sys, random
 
 
 def scenarios():
-    return ['vq-euclid', 'vq-cosine', 'vq-heads-sep', 'vq-expiry', 'vq-cosine-expiry', 'vq-cosine-heads-expiry', 'vq-kmeans', 'vq-cosine-kmeans-expiry', 'rvq-cosine-shared', 'rvq-layers-dropout', 'rvq-shared', 'lfq']
+    return ['vq-euclid', 'vq-cosine', 'vq-heads-sep', 'vq-euclid-masked', 'vq-cosine-masked', 'vq-expiry', 'vq-cosine-expiry', 'vq-cosine-heads-expiry', 'vq-kmeans', 'vq-cosine-kmeans-expiry', 'rvq-cosine-shared', 'rvq-layers-dropout', 'rvq-shared', 'lfq']
 
 
 def build(name, sync=True):
@@ -11,6 +11,10 @@ def build(name, sync=True):
     if name == 'vq-euclid':
         return VectorQuantize(dim=3, codebook_size=6, decay=0.5, sync_codebook=sync), 3
     if name == 'vq-cosine':
+        return VectorQuantize(dim=3, codebook_size=6, decay=0.5, use_cosine_sim=True, sync_codebook=sync), 3
+    if name == 'vq-euclid-masked':
+        return VectorQuantize(dim=3, codebook_size=6, decay=0.5, sync_codebook=sync), 3
+    if name == 'vq-cosine-masked':
         return VectorQuantize(dim=3, codebook_size=6, decay=0.5, use_cosine_sim=True, sync_codebook=sync), 3
     if name == 'vq-heads-sep':
         return VectorQuantize(dim=4, codebook_size=5, heads=2, codebook_dim=2, separate_codebook_per_head=True, decay=0.25, sync_codebook=sync), 4
@@ -55,7 +59,7 @@ def worker(rank, world, initfile, outdir, seed, steps):
         mod.train()
         torch.manual_seed(seed * 7919 + 1000 * rank + si)     # independent RNG streams per rank from here on
         rng = random.Random(seed * 31 + 17 * rank + si)
-        rec = {'states': [], 'batches': [], 'indices': [], 'extra': []}
+        rec = {'states': [], 'batches': [], 'indices': [], 'extra': [], 'masks': []}
         for t in range(steps):
             nb = 1 + (rank + t + si) % 3                      # unequal per-rank batch sizes
             x = grid(rng, (nb, 3, dim), torch)
@@ -67,6 +71,15 @@ def worker(rank, world, initfile, outdir, seed, steps):
                     logits = 2.0 * torch.einsum('t d, j d -> t j', x.reshape(-1, dim).double(), cb)
                     rec['extra'].append({'avg_prob': torch.softmax(logits, dim=-1).mean(dim=0), 'batch_entropy': float(bd.batch_entropy)})
                     idx = ret.indices
+                elif name.endswith('-masked'):
+                    # ragged padding masks; on odd steps the LAST rank's whole local batch is padding while the others hold valid tokens
+                    lens = [rng.randint(1, 3) for _ in range(nb)]
+                    if rank == world - 1 and t % 2 == 1:
+                        lens = [0] * nb
+                    m = torch.arange(3)[None, :] < torch.tensor(lens)[:, None]
+                    rec.setdefault('masks', []).append(m)
+                    ret = mod(x, mask=m)
+                    idx = ret[1]
                 else:
                     ret = mod(x)
                     idx = ret[1]
